@@ -880,7 +880,7 @@ func (m c15) Run(c *fw.Ctx) {
 	}
 	cmds := []cf{{"delete", nil}, {"delete", []string{"-e"}}, {"insert", nil}, {"insert", []string{"-e"}}, {"infix", nil}, {"infix", []string{"-e"}}, {"split", nil}, {"rotate", nil}, {"extract", nil}, {"extract", []string{"-v"}}}
 	r := c.Rng
-	N := c.Pick(250, 2500)
+	N := c.Pick(250, 8000)
 	for it := 0; it < N; it++ {
 		c.NextOwn()
 		var rec *c15rec
